@@ -763,4 +763,105 @@ theorem return?_append_ws (s ws : Chars) (hws : allSpace ws = true) :
           congr 4; omega
         · simp [hc]
 
+/-! ### one-word lines (the keyword statements and the bare `return`) -/
+
+theorem keyword?_head_ne (kw : String) (k c : Char) (l : Chars) (hk : kw.toList.head? = some k) (h : k ≠ c) :
+    keyword? kw (c :: l) = none := by
+  unfold keyword?
+  cases hl : kw.toList with
+  | nil => simp [hl] at hk
+  | cons a as =>
+    simp [hl] at hk; subst hk
+    simp [List.isPrefixOf, h]
+
+theorem idStart_isWord {c : Char} (h : isIdStart c = true) : isWord c = true := by
+  revert h; unfold isIdStart isWord isWordN
+  simp only [Bool.or_eq_true, Bool.and_eq_true, decide_eq_true_eq, beq_iff_eq]
+  intro h
+  have hlt : c.toNat < 128 := by omega
+  simp only [hlt, if_true, Bool.or_eq_true, Bool.and_eq_true, decide_eq_true_eq, beq_iff_eq]; omega
+
+theorem word_ws_split {ws : Chars} (hws : allSpace ws = true) :
+    ws.takeWhile isWord = [] ∧ ws.dropWhile isWord = ws := by
+  cases ws with
+  | nil => simp
+  | cons w ws' =>
+    have hw : isSpace w = true := by simp [allSpace] at hws; exact hws.1
+    simp [space_not_word hw]
+
+theorem ident?_word_ws {c : Char} {rest ws : Chars} (hc : isIdStart c = true) (hr : ∀ x ∈ rest, isWord x = true)
+    (hws : allSpace ws = true) : ident? (c :: (rest ++ ws)) = some (c :: rest, ws) := by
+  obtain ⟨h1, h2⟩ := word_ws_split hws
+  simp [ident?, hc, List.takeWhile_append_of_pos hr, List.dropWhile_append_of_pos hr, h1, h2]
+
+theorem lstrip_allSpace {ws : Chars} (hws : allSpace ws = true) : lstripL ws = [] := by
+  unfold lstripL; rw [dropWhile_eq_nil_iff']; simpa [allSpace] using hws
+
+/-- a line that is one identifier-like word followed by blanks -/
+theorem shapeS_word_ws {c : Char} {rest ws : Chars} (hc : isIdStart c = true) (hr : ∀ x ∈ rest, isWord x = true)
+    (hws : allSpace ws = true) (ha : 'a' ≠ c) (hf : 'f' ≠ c) (hj : 'j' ≠ c) (hi : 'i' ≠ c) :
+    shapeS (c :: (rest ++ ws)) = shapeS (c :: rest) := by
+  have A1 : assign? (c :: (rest ++ ws)) = none := by
+    simp [assign?, ident?_word_ws hc hr hws, lstrip_allSpace hws]
+  have A0 : assign? (c :: rest) = none := by
+    have := ident?_word_ws (ws := []) hc hr rfl
+    simp at this
+    simp [assign?, this, lstripL]
+  have L1 : label? (c :: (rest ++ ws)) = none := by
+    simp [label?, ident?_word_ws hc hr hws, lstrip_allSpace hws]
+  have L0 : label? (c :: rest) = none := by
+    have := ident?_word_ws (ws := []) hc hr rfl
+    simp at this
+    simp [label?, this, lstripL]
+  have F : ∀ l, funcBegin? (c :: l) = none := by
+    intro l
+    simp [funcBegin?, keyword?_head_ne "async" 'a' c l rfl ha, keyword?_head_ne "function" 'f' c l rfl hf]
+  have R : ∀ l, for? (c :: l) = none := by
+    intro l; simp [for?, keyword?_head_ne "for" 'f' c l rfl hf]
+  have J : ∀ l, jump? (c :: l) = none := by
+    intro l; simp [jump?, keyword?_head_ne "jump" 'j' c l rfl hj]
+  have I : ∀ l, include? (c :: l) = none := by
+    intro l; simp [include?, keyword?_head_ne "include" 'i' c l rfl hi]
+  -- a one-word line is a bare `return` or no `return` statement at all
+  have RT : return? (c :: (rest ++ ws)) = return? (c :: rest) := by
+    rw [← List.cons_append, return?_append_ws _ _ hws]
+    unfold return?
+    cases hk : keyword? "return" (c :: rest) with
+    | none => rfl
+    | some r =>
+      have hrw : ∀ x ∈ r, isWord x = true := by
+        unfold keyword? at hk
+        split at hk
+        · simp only [Option.some.injEq] at hk
+          intro x hx; rw [← hk] at hx
+          have := List.mem_of_mem_drop hx
+          simp only [List.mem_cons] at this
+          rcases this with rfl | h
+          · exact idStart_isWord hc
+          · exact hr x h
+        · simp at hk
+      by_cases hall : allSpace r = true
+      · simp [hall, addTrail]
+      · simp only [hall, Bool.false_eq_true, if_false]
+        cases r with
+        | nil => simp [allSpace] at hall
+        | cons d r0 =>
+          have hd : isSpace d = false := by
+            cases hsd : isSpace d with
+            | false => rfl
+            | true => have := space_not_word hsd; simp [hrw d (by simp)] at this
+          simp [hd]
+  unfold shapeS
+  rw [← List.cons_append] at A1 L1 RT
+  have F1 : funcBegin? (c :: rest ++ ws) = none := F _
+  have R1 : for? (c :: rest ++ ws) = none := R _
+  have J1 : jump? (c :: rest ++ ws) = none := J _
+  have I1 : include? (c :: rest ++ ws) = none := I _
+  rw [← List.cons_append, A1, A0, L1, L0, F1, F, R1, R, J1, J, I1, I, RT,
+    kwOnly?_append_ws "endfunction" _ _ _ (by decide) hws, kwOnly?_append_ws "endif" _ _ _ (by decide) hws,
+    kwOnly?_append_ws "endwhile" _ _ _ (by decide) hws, kwOnly?_append_ws "endfor" _ _ _ (by decide) hws,
+    kwOnly?_append_ws "break" _ _ _ (by decide) hws, kwOnly?_append_ws "continue" _ _ _ (by decide) hws,
+    kwExprColon?_append_ws "if" _ _ _ (by decide) hws, kwExprColon?_append_ws "elif" _ _ _ (by decide) hws,
+    kwExprColon?_append_ws "while" _ _ _ (by decide) hws, else?_append_ws _ _ hws]
+
 end C10
